@@ -9,11 +9,13 @@ GenNext ==
   \/ \E t \in Targets : Get(t)
   \/ \E w \in Workers : Dequeue(w) \/ ProbeOK(w) \/ ProbeFail(w)
   \/ \E o \in timers : TimerFire(o)
+  \/ ToggleInfo
 GenSpec == Init /\ [][GenNext]_vars
-View == <<table, st, nobj, queue, busy, timers, fails>>
+View == <<table, st, nobj, queue, busy, timers, fails, info>>
 \* schedules for the harness: the history of a simulated behaviour
 HJson == [k \in DOMAIN hist |-> [ev |-> hist[k].ev, t |-> hist[k].t,
-             set |-> IF hist[k].ev = "update" THEN SetToSeq(hist[k].x) ELSE <<>>]]
+             set |-> IF hist[k].ev = "update" THEN SetToSeq(hist[k].x) ELSE <<>>,
+             on |-> IF hist[k].ev = "info" THEN hist[k].x ELSE TRUE]]
 \* scenario prefixes worth executing on the real explorer: reached states in which an entry object is
 \* stale (its target was removed, or removed and discovered again) while it is still queued, being
 \* probed or waiting for its retry - and plain retries / lookups after success.  Exported from the
@@ -27,6 +29,7 @@ Scenario ==
   \/ \E w \in Workers : busy[w].o # 0 /\ Rediscovered(busy[w].o)
   \/ \E o \in timers : ~Stale(o)
   \/ \E t \in DOMAIN table : st[table[t]].probed
+  \/ ~info /\ timers # {}
 ExportScenario == (Scenario /\ Len(hist) >= 3) => CSVWrite("%1$s", <<ToJson([steps |-> HJson])>>, OutFile)
 Export == Len(hist) = MaxLen => CSVWrite("%1$s", <<ToJson([steps |-> HJson])>>, OutFile)
 =============================================================================
